@@ -135,11 +135,28 @@ def run_case(case):
         return (name, body, want, None, False, "", traceback.format_exc()[-600:])
 
 
+def replay_passed_parameters(name):
+    """Real front end on a module that passes a value of another enum for an enum parameter."""
+    import re
+    m = re.search(r"d0=(\w+).*?p0=(\w+)", name)
+    src = ('[$default byte_order: "LittleEndian"]\nenum EnumA:\n  VA = 1\nenum EnumB:\n  VB = 2\nstruct Inner(k: EnumA):\n  0 [+1]  UInt  x\n'
+           'struct Outer:\n  0 [+1]  EnumB  b\n  1 [+1]  Inner(b)  inner\n')
+    glue = importlib.import_module("compiler.front_end.glue")
+    from contracts.bounds import _Reader
+    ir, debug, errors = glue.parse_emboss_file("w.emb", _Reader({"w.emb": src}))
+    return {"reproduced": not errors, "inputs": src, "accepted": not errors, "expected": "rejected: parameter k of Inner is an EnumA, an EnumB was passed"}
+
+
 def main(args):
     run = core.Run("C13", args.tier, "exploration", "./check C13 --tier " + args.tier)
     # E1 (proof part): the operator signature table, on the real functions, for every operator / arity / operand-kind tuple
     from vlib import pool
-    pool.run_targets(run, "contracts.typing", ["_type_check_operation"])
+    pool.run_targets(run, "contracts.typing", ["_type_check_operation", "positional"])
+    for ob in run.obligations:
+        if ob.verdict == core.REFUTED and ob.name.startswith("positional[rule=passed-parameters"):
+            ob.replay = replay_passed_parameters(ob.name)
+    run.function("compiler.front_end.type_check.{_type_check_array_size,_type_check_field_location,_type_check_field_existence_condition,_type_check_parameter,_type_check_passed_parameters}",
+                 "pyvc: positional rules; a passed parameter must have the declared parameter's type (for enums: the same enum)")
     run.function("compiler.front_end.type_check._type_check_operation (+ _type_check_comparison_operator, _type_check_choice_operator, _type_check_monomorphic_operator, _types_are_compatible, _type_check*)",
                  "pyvc: bodies executed over records that expose only type.which_type / enum name / which_expression: no error <=> documented signature, documented result type")
     run.assume(*core.STANDING_ASSUMPTIONS["E1"])
